@@ -426,7 +426,13 @@ ReadResult BinaryFileReader::internal_read_file(TopologyKernel &out)
     if (file_header_.n_verts != out.n_vertices()
             || file_header_.n_edges != out.n_edges()
             || file_header_.n_faces != out.n_faces()
-            || file_header_.n_cells != out.n_cells())
+            || file_header_.n_cells != out.n_cells()
+            // vertices are created up front from the header count, so
+            // also compare what the chunks actually delivered:
+            || file_header_.n_verts != n_verts_read_
+            || file_header_.n_edges != n_edges_read_
+            || file_header_.n_faces != n_faces_read_
+            || file_header_.n_cells != n_cells_read_)
     {
         state_ = ReadState::ErrorMissingData;
         error_msg_ = "V/E/F/C count is incorrect";
